@@ -92,7 +92,8 @@ async def acallable_iterator(
 ) -> AsyncIterator[T]:
     subject = _awaitify(subject)
     value = await subject()
-    while value != sentinel:
+    # like the builtin: identity implies equality (e.g. for a ``nan`` sentinel)
+    while not (value is sentinel or value == sentinel):
         yield value
         value = await subject()
 
